@@ -2,6 +2,7 @@ import S3V.Model.SigV4
 import S3V.Model.SigV4E2E
 import S3V.Spec.SigV4Verify
 import S3V.Spec.PostPolicy
+import S3V.Model.PostPolicy
 import S3V.Crypto.All
 /-!
 Driver for components `sigv4` (pure functions), `sigv4e2e` (header authentication end to end),
@@ -284,28 +285,54 @@ def judgeE2E (id : String) (ins outs0 : List String) : String :=
         else match o1 with
         | .unmodelled why => unmodelled id why
         | _ =>
-          let model := outcomeStr backend o1
+          let isPost := kind.startsWith "post"
+          let bucket := (splitFirst 47 (p.drop 1)).1
+          let fileLen := file.length / 2
+          -- MODEL of the POST-object gate of `ops::prepare` (commit 64704af): runs only when the request reaches the
+          -- operation resolution (a custom route takes the request before it)
+          let gateStr (nowNs : Int) : Option String :=
+            if isPost && backend then
+              match o1 with
+              | .accept .. =>
+                let fields := multipartFields form
+                match PostPolicyModel.gate nowNs (findFieldValue fields b!"policy") bucket fields fileLen with
+                | .pass => none
+                | .invalidPolicyDocument => some "ERR:InvalidPolicyDocument"
+                | .accessDenied => some "ERR:AccessDenied"
+                | .entityTooSmall => some "ERR:EntityTooSmall"
+                | .entityTooLarge => some "ERR:EntityTooLarge"
+              | _ => none
+            else none
+          let model := (gateStr n1).getD (outcomeStr backend o1)
+          let model2 := (gateStr n2).getD (outcomeStr backend o1)
+          -- SPEC, C10 policy clause: the defect of the upload under the policy it carries (AWS POST-policy document)
+          let specDefect (nowNs : Int) : Option PostPolicy.Defect :=
+            if isPost && backend then
+              match SigV4Spec.fieldVals form SigV4Spec.fPolicy with
+              | [pol] => PostPolicy.formDefect (nowNs / 1000000000) pol form bucket fileLen
+              | _ => none
+            else none
+          let d1 := specDefect n1
+          let d2 := specDefect n2
+          if model ≠ model2 || d1 ≠ d2 then unmodelled id "clock-moved-across-the-policy-expiration"
+          else
           -- the specification's complaint, if any
           let implAccept := impl.startsWith "ACCEPT:"
           let implAuthErr := authErrCodes.any fun c => impl = "ERR:" ++ c
+          let presentsQuerySig : Bool :=
+            ((SigV4Spec.decodeQuery (q.getD [])).getD []).any fun p => p.1 = SigV4Spec.xAmzSignature
           let complaint : Option String :=
             match s1 with
             | .undefined _ => none
             | .accept .. => if impl = specStr s1 then none
+                            -- a form that does not comply with its policy may (must, see below) be refused
+                            else if d1.isSome then none
                             else if implAccept || implAuthErr || impl = "ANON" then some "refused-or-misattributed" else none
-            | .reject _ => if implAccept then some "accepted" else none
+            | .reject _ => if implAccept then some "accepted"
+                           -- C06/C07: a request that presents query signature material is refused, never passed on
+                           -- as an anonymous one
+                           else if impl = "ANON" && presentsQuerySig then some "treated-as-anonymous" else none
             | .anonymous => if implAccept then some "accepted" else none
-          -- C10, policy clause: an accepted form must comply with the policy it carries (AWS POST-policy document)
-          let policyComplaint : Option (Option PostPolicy.Defect × Option PostPolicy.Defect) :=
-            if kind.startsWith "post" && implAccept then
-              match SigV4Spec.fieldVals form SigV4Spec.fPolicy with
-              | [pol] =>
-                let bucket := (splitFirst 47 (p.drop 1)).1
-                let fileLen := file.length / 2
-                some (PostPolicy.formDefect (n1 / 1000000000) pol form bucket fileLen,
-                      PostPolicy.formDefect (n2 / 1000000000) pol form bucket fileLen)
-              | _ => none
-            else none
           match complaint with
           | some what =>
             -- a wrong window is a class of its own, whatever else the request looks like
@@ -316,27 +343,29 @@ def judgeE2E (id : String) (ins outs0 : List String) : String :=
               else e2eClass sw
             specfail id cls s!"{what}: spec={specStr s1} impl={impl}"
           | none =>
-            if model ≠ impl then disagree id model impl
-            else match policyComplaint with
-            | some (some d, some d') =>
-              if d ≠ d' then unmodelled id "clock-moved-across-the-policy-expiration"
-              -- AWS's rule that every form field must be covered by a condition is not among the clauses the property
-              -- states (expiry; every condition the policy places holds): reported as a class, not demanded
-              else if d = .fieldUncovered then agree id s!"{kind}-accept-field-uncovered"
+            -- AWS's rule that every form field must be covered by a condition is not among the clauses the property
+            -- states (expiry; every condition the policy places holds): not demanded
+            let demanded : Option PostPolicy.Defect := match d1 with
+              | some .fieldUncovered => none
+              | d => d
+            match (if implAccept then demanded else none) with
+            | some d =>
+              let cls := match d with
+                | .malformed => "post-policy-malformed-accepted"
+                | .expired => "post-policy-expired-accepted"
+                | .exactViolated => "post-policy-condition-violated-accepted"
+                | .startsWithViolated => "post-policy-starts-with-violated-accepted"
+                | .lengthRange => "post-policy-length-range-accepted"
+                | .fieldUncovered => "post-policy-field-uncovered-accepted"
+              specfail id cls s!"accepted although the policy forbids the upload ({reprStr d}): impl={impl}"
+            | none =>
+              if model ≠ impl then disagree id model impl
               else
-                let cls := match d with
-                  | .malformed => "post-policy-malformed-accepted"
-                  | .expired => "post-policy-expired-accepted"
-                  | .exactViolated => "post-policy-condition-violated-accepted"
-                  | .startsWithViolated => "post-policy-starts-with-violated-accepted"
-                  | .lengthRange => "post-policy-length-range-accepted"
-                  | .fieldUncovered => "post-policy-field-uncovered-accepted"
-                specfail id cls s!"accepted although the policy forbids the upload ({reprStr d}): impl={impl}"
-            | some (some _, none) => unmodelled id "clock-moved-across-the-policy-expiration"
-            | some (none, some _) => unmodelled id "clock-moved-across-the-policy-expiration"
-            | _ =>
-              let tag := if implAccept then "accept" else if impl = "ANON" then "anon" else impl.replace "ERR:" "err-"
-              agree id s!"{kind}-{tag}"
+                let tag := if implAccept then "accept" else if impl = "ANON" then "anon" else impl.replace "ERR:" "err-"
+                let pol := match d1 with
+                  | none => ""
+                  | some d => "/policy-" ++ (reprStr d).replace "S3V.PostPolicy.Defect." ""
+                agree id s!"{kind}-{tag}{pol}"
       | _, _, _, _, _ => badline id
     | _, _, _, _, _, _, _, _, _, _, _, _ => badline id
   | _, _ => badline id
